@@ -32,9 +32,10 @@ Recs  == ndJsonDeserialize("recs.ndjson")
 
 VARIABLES l,      \* next trace line
           bad,    \* failures so far: [l, why]
-          conc    \* the current history is a concurrent one
+          conc,   \* the current history is a concurrent one
+          excl    \* ring.Config.ExcludedZones of the current history (zone numbers)
 
-tvars == <<vars, l, bad, conc>>
+tvars == <<vars, l, bad, conc, excl>>
 
 Ev == Trace[l]
 
@@ -71,24 +72,25 @@ Reset ==
     /\ desc' = NoDesc /\ idx' = IndexView(NoDesc) /\ ltc' = 0
     /\ cache' = EmptyCache /\ lbc' = EmptyLbc /\ nupd' = 0
     /\ conc' = Ev.conc
+    /\ excl' = {Ev.excl[j] : j \in DOMAIN Ev.excl}
     /\ pend' = [p \in Readers |-> None]
     /\ UNCHANGED bad
 
 DoUpdate ==
-    LET d == MOf(Ev.d) IN
-    /\ Note(If(Classify(desc, d) \notin WantClass(Ev.kind), "kind"))
+    LET d == Exclude(MOf(Ev.d), excl) IN     \* what updateRingState keeps of the delivered descriptor
+    /\ Note(If(~Ev.any /\ Classify(desc, d) \notin WantClass(Ev.kind), "kind"))
     /\ Update(d)
-    /\ UNCHANGED conc
+    /\ UNCHANGED <<conc, excl>>
 
 DoCounts ==
     /\ Note(If(Ev.lc # Ev.fc, "answer") \cup If(Ev.fc # SpecCounts, "counts"))
-    /\ UNCHANGED <<vars, conc>>
+    /\ UNCHANGED <<vars, conc, excl>>
 
 DoDirect ==
     LET lm == MOf(Ev.lm)
         fm == MOf(Ev.fm)
     IN /\ Note(If(Ev.lm # Ev.fm \/ Ev.lx # Ev.fx, "answer") \cup If(~Faithful(lm) \/ ~Faithful(fm), "faithful"))
-       /\ UNCHANGED <<vars, conc>>
+       /\ UNCHANGED <<vars, conc, excl>>
 
 DoShard ==
     LET lm  == MOf(Ev.lm)
@@ -104,9 +106,9 @@ DoShard ==
                \* re-query of a gated round: a miss means the reader's fill was refused
                \cup If(Ev.g /\ ~Ev.hit /\ ~Ev.self /\ hitOK, "nofill"))
        /\ IF Ev.L = 0 THEN SeqPlain(Ev.id, Ev.size) ELSE SeqLb(Ev.id, Ev.size, Ev.L, Ev.now)
-       /\ UNCHANGED conc
+       /\ UNCHANGED <<conc, excl>>
 
-DoCleanup == Cleanup(Ev.id) /\ UNCHANGED <<bad, conc>>
+DoCleanup == Cleanup(Ev.id) /\ UNCHANGED <<bad, conc, excl>>
 
 (* Gated rounds (hook between computing a shard and filling the cache): the *)
 (* reader's two critical sections are the specification's QueryPlain /      *)
@@ -117,20 +119,20 @@ DoCleanup == Cleanup(Ev.id) /\ UNCHANGED <<bad, conc>>
 GReader == CHOOSE p \in Readers : TRUE
 DoGatedQuery ==
     /\ IF Ev.L = 0 THEN QueryPlain(GReader, Ev.id, Ev.size) ELSE QueryLb(GReader, Ev.id, Ev.size, Ev.L, Ev.now)
-    /\ UNCHANGED <<bad, conc>>
+    /\ UNCHANGED <<bad, conc, excl>>
 
 \* the reader returns what it computed: the fresh answer of the version it was computed on
 DoGatedFill ==
     LET has == pend[GReader] # None IN
     /\ Note(If(has /\ ~Ev.self /\ (MOf(Ev.lm) # Val(pend[GReader]).m \/ Ev.lx # Ev.fx), "concurrent"))
     /\ IF has THEN Fill(GReader) ELSE UNCHANGED vars
-    /\ UNCHANGED conc
+    /\ UNCHANGED <<conc, excl>>
 
 DoConcurrent ==
     /\ Note(If(Ev.ans # Ev.before /\ Ev.ans # Ev.after, "concurrent"))
-    /\ UNCHANGED <<vars, conc>>
+    /\ UNCHANGED <<vars, conc, excl>>
 
-TraceInit == Init /\ l = 1 /\ bad = <<>> /\ conc = FALSE
+TraceInit == Init /\ l = 1 /\ bad = <<>> /\ conc = FALSE /\ excl = {}
 
 TraceNext ==
     /\ l <= Len(Trace)
